@@ -275,23 +275,24 @@ theorem upd_upd (c p : Id) (ps : List Id) (od : Graph) :
 /-- The comparison key of node `n` under a total key function. -/
 def Kf (kf : Id → Int × Int) (n : Id) : TB := ⟨(kf n).1, (kf n).2, n⟩
 
-theorem keyTB_total {key : Id → Option (Int × Int)} {kf : Id → Int × Int}
-    (hk : ∀ n, key n = some (kf n)) (n : Id) : keyTB key n = .ok (Kf kf n) := by
+theorem keyTB_total {key : Id → Option (Int × Int)} {kf : Id → Int × Int} {n : Id}
+    (hk : key n = some (kf n)) : keyTB key n = .ok (Kf kf n) := by
   simp [keyTB, hk, Kf]
 
 theorem relax_eq {key : Id → Option (Int × Int)} {kf : Id → Int × Int}
-    (hk : ∀ n, key n = some (kf n)) (c : Id) : ∀ (ps : List Id) (od : Graph) (h : List TB),
-    od.nodes.Nodup → ps.Nodup → (∀ p ∈ ps, p ∈ od.nodes) →
+    (c : Id) : ∀ (ps : List Id) (od : Graph) (h : List TB),
+    (∀ p ∈ ps, key p = some (kf p)) → od.nodes.Nodup → ps.Nodup → (∀ p ∈ ps, p ∈ od.nodes) →
     relax key c ps od h =
       .ok (upd c ps od, ((ps.filter (fun p => emptyAfter od p c)).map (Kf kf)).reverse ++ h)
-  | [], od, h, _, _, _ => by
+  | [], od, h, _, _, _, _ => by
     simp only [relax, List.filter_nil, List.map_nil, List.reverse_nil, List.nil_append]
     congr 2
     unfold upd
     conv => lhs; rw [← List.map_id od]
     apply List.map_congr_left
     intro a _; simp
-  | p :: ps, od, h, hn, hps, hsub => by
+  | p :: ps, od, h, hk, hn, hps, hsub => by
+    have hk' : ∀ q ∈ ps, key q = some (kf q) := fun q hq => hk q (by simp [hq])
     have hps' := List.nodup_cons.mp hps
     have hp : p ∈ od.nodes := hsub p (by simp)
     have hn1 : (upd c [p] od).nodes.Nodup := by rw [nodes_upd]; exact hn
@@ -306,11 +307,11 @@ theorem relax_eq {key : Id → Option (Int × Int)} {kf : Id → Int × Int}
       simp only [emptyAfter, edges?_upd_of_not_mem c [p] q this od]
     simp only [relax, removeEdge_eq od p c hn hp]
     by_cases he : emptyAfter od p c = true
-    · simp only [he, if_true, keyTB_total hk]
-      rw [relax_eq hk c ps _ _ hn1 hps'.2 hsub1, upd_upd, hfil]
+    · simp only [he, if_true, keyTB_total (hk p (by simp))]
+      rw [relax_eq c ps _ _ hk' hn1 hps'.2 hsub1, upd_upd, hfil]
       simp [List.filter_cons, he]
     · simp only [he]
-      rw [relax_eq hk c ps _ _ hn1 hps'.2 hsub1, upd_upd, hfil]
+      rw [relax_eq c ps _ _ hk' hn1 hps'.2 hsub1, upd_upd, hfil]
       simp [List.filter_cons, he]
 
 theorem mem_nodes_iff {g : Graph} {n : Id} : n ∈ g.nodes ↔ ∃ es, (n, es) ∈ g := by
@@ -569,7 +570,7 @@ theorem length_nodes (g : Graph) : g.nodes.length = g.length := by simp [Graph.n
 
 theorem kahnLoop_eq {g : Graph} (hg : g.nodes.Nodup) {psh : Id → List Id → List Id}
     (hpsh : ∀ n l, (psh n l).Perm l) {key : Id → Option (Int × Int)} {kf : Id → Int × Int}
-    (hk : ∀ n, key n = some (kf n)) :
+    (hk : ∀ n ∈ g.nodes, key n = some (kf n)) :
     ∀ (fuel : Nat) (done : List Id) (h : List TB), KInv g kf done h →
       done.length + fuel = g.length →
       kahnLoop psh key g fuel (odOf g done) h done.reverse = .ok (kahn g (Kf kf) fuel done) := by
@@ -631,7 +632,8 @@ theorem kahnLoop_eq {g : Graph} (hg : g.nodes.Nodup) {psh : Id → List Id → L
         obtain ⟨es, hpg, _⟩ := mem_parents.mp (hps.mem_iff.mp hp)
         exact mem_nodes_iff.mpr ⟨es, hpg⟩
       simp only [parentsOf_of_mem hmem]
-      rw [relax_eq hk m.id _ _ _ (by rw [hodn]; exact hg) hpsn hsub]
+      rw [relax_eq m.id _ _ _ (fun p hp => hk p (by rw [← hodn]; exact hsub p hp))
+        (by rw [hodn]; exact hg) hpsn hsub]
       simp only []
       rw [upd_odOf hg done m.id _ (fun n => by rw [hps.mem_iff]; exact mem_parents)]
       have := ih (done ++ [m.id]) _ inv' (by simp only [List.length_append, List.length_singleton]; omega)
@@ -648,12 +650,13 @@ theorem odOf_nil (g : Graph) : odOf g [] = g := by
   simp [this]
 
 theorem initHeap_eq {key : Id → Option (Int × Int)} {kf : Id → Int × Int}
-    (hk : ∀ n, key n = some (kf n)) : ∀ (g : Graph),
+    : ∀ (g : Graph), (∀ n ∈ g.nodes, key n = some (kf n)) →
     initHeap key g = .ok ((candidates g []).map (Kf kf))
-  | [] => rfl
-  | (n, es) :: t => by
-    have ih := initHeap_eq hk t
-    simp only [initHeap, keyTB_total hk, ih]
+  | [], _ => rfl
+  | (n, es) :: t, hk => by
+    have ih := initHeap_eq t (fun x hx => hk x (by simp [Graph.nodes] at hx ⊢; exact .inr hx))
+    have hkn : key n = some (kf n) := hk n (by simp [Graph.nodes])
+    simp only [initHeap, keyTB_total hkn, ih]
     cases es with
     | nil => simp [candidates, List.filter_cons]
     | cons e es' => simp [candidates, List.filter_cons]
@@ -663,10 +666,10 @@ keys, every total key function and every iteration order of the `reverse_graph` 
 particular neither `expect` fires and the loop bound suffices. -/
 theorem lexTopoSort_eq_lexTopo {g : Graph} (hg : g.nodes.Nodup) {psh : Id → List Id → List Id}
     (hpsh : ∀ n l, (psh n l).Perm l) {key : Id → Option (Int × Int)} {kf : Id → Int × Int}
-    (hk : ∀ n, key n = some (kf n)) :
+    (hk : ∀ n ∈ g.nodes, key n = some (kf n)) :
     lexTopoSort psh g key = .ok (lexTopo g (Kf kf)) := by
   unfold lexTopoSort lexTopo
-  rw [initHeap_eq hk]
+  rw [initHeap_eq g hk]
   simp only []
   have inv : KInv g kf [] ((candidates g []).map (Kf kf)) :=
     ⟨List.nodup_nil, by simp, by intro n es _ h; simp at h, List.Perm.refl _⟩
